@@ -10,7 +10,7 @@ from ..io_util import BudgetReader, ReadBudgetExceeded
 
 ID = 'C06'
 RULE = ('dumps: small version-2 and version-3 files (<= 14 records from scenario programs so that traces exist; v3 with '
-        'fillers, 1..3 chunks, <= 4 blocks incl. logs) x cut offsets: quick = every structural boundary +-1 and 40 '
+        'fillers, 1..3 chunks, <= 4 blocks incl. logs) x cut offsets: quick = every structural boundary (sections, chunk headers, blocks, record and record-field boundaries) +-1 and 40 '
         'pseudo-random offsets; thorough = EVERY offset 0..len of every generated dump. The reader counts read calls '
         'and raises after 8*len+4096 (healthy parsers need <= ~2*len), which turns "spins at end-of-file" into a '
         'deterministic failure. Oracle per cut: iteration stops (StopIteration or an error other than the budget); '
@@ -22,6 +22,9 @@ RULE = ('dumps: small version-2 and version-3 files (<= 14 records from scenario
 ASSUMPTIONS = ['linear reading is decided by a read-call budget of 8*len+4096 on a counting reader',
                'the first record of a dump does not begin with 0x00 (K1, see C02)',
                'for version 3 the prefix claim is on events (logs and metadata need the sections after the events)']
+
+
+REC_FIELDS = [8, 32, 40, 48, 52, 56]     # field boundaries inside a 64-byte record
 
 
 def stream_events(spec):
@@ -43,6 +46,7 @@ def build(spec):
         head = kmodel.v2_file(tm, 0, [])
         blob = head + bytes(pad) + b''.join(recs)
         bounds = [0, 4, 8, 0x120] + [0x120 + 32 * i for i in range(len(tm) + 1)] + [len(head) + pad + 64 * i for i in range(len(recs) + 1)]
+        bounds += [len(head) + pad + 64 * i + f for i in range(len(recs)) for f in REC_FIELDS]
         return blob, bounds, 2
     v3 = dict(spec['v3'])
     cuts = sorted(c % (len(recs) + 1) for c in spec['cuts'])
@@ -65,7 +69,7 @@ def build(spec):
     for r in recs:
         k = blob.find(r)
         if k >= 0:
-            bounds |= {k, k + 64}
+            bounds |= {k, k + 64} | {k + f for f in REC_FIELDS}
     return blob, sorted(b for b in bounds if b <= len(blob)), 3
 
 
@@ -187,6 +191,6 @@ def spec_strategy(version):
 def run(ctx):
     for version in (2, 3):
         strat = st.fixed_dictionaries({'spec': spec_strategy(version), 'seed': S.u64, 'all_offsets': st.just(not ctx.quick)})
-        ctx.run_given('cut', strat, prop_cut, ctx.n(18, 7))
+        ctx.run_given('cut', strat, prop_cut, ctx.n(10, 7))
     cstrat = st.fixed_dictionaries({'spec': spec_strategy(2), 'k': st.integers(0, 40)})
     ctx.run_given('count', cstrat, prop_count, ctx.n(60, 200))
